@@ -95,7 +95,10 @@ def gen_structure(rng, *, token_only=False, max_parts=4, max_data=60):
         tail = b'\r\n'
     else:
         tail = rng.choice([b'\r\nepilogue', b'--', b'-', b'\r', b'\n', b'x', b'\r\n--' + boundary.encode() + b'--\r\n',
-                           b'\r\n' + bytes(rng.getrandbits(8) for _ in range(rng.randint(1, 20)))])
+                           b'\r\n' + bytes(rng.getrandbits(8) for _ in range(rng.randint(1, 20))),
+                           # epilogues that would pass for a part if the closing delimiter were taken for an ordinary one
+                           b'\r\n\r\n', b'\r\n\r\nmore\r\n', b'\r\nContent-Disposition: form-data; name="e"\r\n\r\nzz',
+                           b'\r\nContent-Disposition: form-data; name="e"\r\n\r\nzz\r\n--' + boundary.encode() + b'--\r\n'])
     return {'boundary': boundary, 'parts': parts, 'lead_crlf': rng.random() < 0.25, 'tail': tail.hex(),
             'closed': True}
 
